@@ -38,6 +38,14 @@ def build_file(fd):
 
 
 def check_write(fd):
+    # history: the same events were written under another text encoding earlier in this process (round 13: a cache of
+    # encoded texts keyed on the text alone); what that save does is not examined here
+    try:
+        early = build_file(fd)
+        early.charset = 'utf-16-le'
+        early.save(file=io.BytesIO())
+    except Exception:  # noqa: BLE001
+        pass
     try:
         buf = io.BytesIO()
         build_file(fd).save(file=buf)
